@@ -1651,6 +1651,11 @@ class Variogram(object):
         _x = x[~np.isnan(y)]
         _y = y[~np.isnan(y)]
 
+        # the weights have to be aligned to the remaining lag classes
+        _sigma = self.fit_sigma
+        if _sigma is not None and len(_sigma) == len(y):
+            _sigma = np.asarray(_sigma)[~np.isnan(y)]
+
         # check if method is manual and a nugget was passed
         if self.fit_method == 'manual' and kwargs.get('nugget', self._kwargs.get('fit_nugget', False)):
             self.use_nugget = True
@@ -1713,7 +1718,7 @@ class Variogram(object):
                 wrapped,
                 _x, _y,
                 method='trf',
-                sigma=self.fit_sigma,
+                sigma=_sigma,
                 p0=p0,
                 bounds=bounds,
                 **kwargs
@@ -1725,7 +1730,7 @@ class Variogram(object):
                 wrapped,
                 _x, _y,
                 method='lm',
-                sigma=self.fit_sigma,
+                sigma=_sigma,
                 p0=p0,
                 **kwargs
             )
